@@ -288,8 +288,9 @@ def build_cfg(c: dict, env: Env, snap_dir: Optional[str]):
     budgets: Dict[str, Any] = {}
     if c["cap"] is not None:
         budgets["ops_reflection"] = c["cap"]
+    hand_budget = c["budget"] is not None and c["budget"] < 1     # below the validator's minimum: set after validation
     if c["budget"] is not None:
-        budgets["time_ms_reflection"] = c["budget"]
+        budgets["time_ms_reflection"] = 1 if hand_budget else c["budget"]
     over: Dict[str, Any] = {"t3": t3, "t4": {"enabled": bool(c["t4"])}}
     if budgets:
         over["scheduler"] = {"budgets": budgets}
@@ -308,6 +309,8 @@ def build_cfg(c: dict, env: Env, snap_dir: Optional[str]):
         cfg["t3"]["llm"]["fixtures"]["enabled"] = False
     elif post == "emptypath":
         cfg["t3"]["llm"]["fixtures"]["path"] = ""
+    if hand_budget:
+        cfg["scheduler"]["budgets"]["time_ms_reflection"] = c["budget"]
     return cfg
 
 
@@ -789,6 +792,11 @@ def _faults_menu(excs: List[str], thorough: bool) -> List[dict]:
     for budget, delays in ((5, (0, 4, 6, 1000)), (None, (1000, 7000)), (1, (0, 2))):
         for d in delays:
             items.append({"budget": budget, "delay": d})
+    # the LOWER END of the documented domain of the budget (docs/m10/reflection.md: "int ms >= 0"): a budget of 0 ms is
+    # the tightest limit, not "no limit" - every pass that takes measurable time exceeds it (only "within budget" cases
+    # do not exist for it).  The engine reads the raw cfg, so the value reaches it whatever a config validator thinks.
+    for d in ((0.25, 1, 6, 1000) if thorough else (0.25, 6)):
+        items.append({"budget": 0, "delay": d})
     # elapsed times that are NOT whole milliseconds, on both sides of the budget: the clock is a float of seconds, the
     # budget an int of milliseconds - over by 1/8, 1/4, 3/4 ms (below and above the next half / whole ms), under by 3/4
     for budget, delays in ((5, (4.25, 5.125, 5.25, 5.75)), (1, (0.25, 1.25))):
@@ -1695,7 +1703,8 @@ def run(run: Run) -> None:
                 "fenced-json framing) alone and after a reflecting turn (thorough: paired with every planner answer in both "
                 "orders, and every request-spelling followed by every decline-spelling); leg F scripts elapsed times on "
                 "both sides of the wall budget including fractions of a millisecond (budget +1/8, +1/4, +3/4 ms, budget "
-                "-3/4 ms; thorough more, incl. half-millisecond ties and the default budget); "
+                "-3/4 ms; thorough more, incl. half-millisecond ties and the default budget) and the lower end of the budget's "
+                "documented domain, 0 ms, with passes of 1/4 and 6 ms (thorough also 1 and 1000 ms); "
                 "the id/ts table is recomputed in fresh interpreters with other "
                 "hash seeds and other time zones; D1/D2 call reflect()/write_reflection_entries directly. non-trivial = "
                 "open gate and reflect() actually ran, or closed gate with at least one gate input set; H: a turn that does "
@@ -1723,6 +1732,12 @@ def run(run: Run) -> None:
                "at least 1/8 ms, 'within budget' = at most budget - 1/8 ms even if the engine reads the advancing clock twice "
                "more; elapsed == budget exactly and excesses below 1/8 ms are not in the alphabet (the statement names neither "
                "the side of the boundary nor a clock resolution)")
+    run.assume("wall budget 0: docs/m10/reflection.md gives the domain of scheduler.budgets.time_ms_reflection as 'int ms >= 0' "
+               "with 'on timeout -> reason=reflection_timeout and no writes'; configs/validate.py rejects values below 1, so "
+               "the 0 ms budget is carried by a hand-built runtime config (validated with 1, then set to 0 - what the repo's "
+               "tests and scripts do when they pass a raw cfg to run_turn, which reads the budget itself). Read as the "
+               "tightest limit: any pass taking >= 1/4 ms is a timeout and must write nothing; 'unlimited' is spelled null. "
+               "Only the int 0 is enumerated, not '0', 0.5 or False (the docs name no coercions)")
     run.assume("planner `reflection` value: a spelling of 'no' (false, 0, 'false', '0', 'no', 'f', 'n' in any case / padding), "
                "null and the empty string never request reflection - whether the validator coerces them or rejects the output "
                "(rejected output = fallback plan, which requests nothing); a spelling of 'yes' may open the gate (counted in "
